@@ -525,6 +525,9 @@ class Engine(object):
         errs = self.ses.errors.take()
         if errs:
             self.count("errors_logged_by_txtorcon", len(errs))
+            if self.rec is not None:
+                for e in errs:
+                    self.rec.seen("logged_error_kinds", "%s: %s" % (e[0], e[1][:50]))
 
     def judge_calls(self, evs, expected, calls, unspecified, snapshot_uids, label):
         want = {}
@@ -598,12 +601,25 @@ class Engine(object):
 
     # ---- waits ------------------------------------------------------------------
     def wait_class(self, w):
-        extra = ""
-        if w.superseded:
-            extra = ",superseded-by-later-close"
-        elif w.nth > 1:
-            extra = ",repeated-request"
-        return "%s,requested=%s%s" % (w.kind, w.requested, extra)
+        """structural class of a wait: what was requested, when (relative to the life of its
+        object) and - for close requests - which other close requests surround it"""
+        if w.kind not in ("circuit.close", "stream.close"):
+            return "%s,requested=%s" % (w.kind, w.requested)
+        same = [x for x in self.waits if x.kind == w.kind and x.uid == w.uid]
+        i = same.index(w)
+        if not w.requested.startswith("live"):
+            extra = ""
+            if w.kind == "circuit.close" and any(not x.requested.startswith("live") for x in same[:i]):
+                extra = ",not-first-request-after-gone"
+            return "%s,requested=%s%s" % (w.kind, w.requested.replace("-never-built", ""), extra)
+        later = same[i + 1:]
+        if any(x.requested.startswith("live") for x in later):
+            extra = ",then-closed-again-while-live"
+        elif later:
+            extra = ",then-closed-again-after-gone"
+        else:
+            extra = ""
+        return "%s,requested=live%s" % (w.kind, extra)
 
     def facts(self, w):
         m, live = self.model_obj(w.okind, w.uid)
@@ -678,11 +694,17 @@ class Engine(object):
             if len(ws) < 2 or kind.startswith("state."):
                 continue
             self.count("repeat_groups_compared")
+            raced = [w for w in ws if not w.outcome.ok and w.requested.startswith("live")
+                     and getattr(w.outcome.value, "code", None) == 552]
+            if raced:
+                # the command reached Tor after Tor had dropped the object by itself
+                self.count("close_requests_raced_with_tor", len(raced))
+                ws = [w for w in ws if w not in raced]
             oks = {bool(w.outcome.ok) for w in ws}
             if len(oks) > 1:
                 bad = [w for w in ws if not w.outcome.ok]
                 self.V("repeated-requests-differ",
-                       "%s,failed-request=%s" % (kind, bad[0].requested),
+                       "%s,failed-request=%s" % (kind, bad[0].requested.replace("-never-built", "")),
                        {"object": [ws[0].okind, ws[0].oid],
                         "outcomes": [[w.requested, str(w.outcome.describe())[:120]] for w in ws]})
         for (okind, uid), tr in self.close_log.items():
@@ -777,12 +799,14 @@ def gen_case(rnd, tier="quick"):
                 op = dict(last_close)                 # the same request again ("also twice")
                 if rnd.random() < 0.5:
                     op["order"], op["hold"] = rnd.choice(ORDERS)
+                if rnd.random() < 0.6:
+                    last_close = None
             else:
                 op = random_op(rnd, eng)
-            if op is None:
-                break
-            if op["op"] in ("cclose", "sclose") and op.get("via") == "object":
-                last_close = op
+                if op is None:
+                    break
+                if op["op"] in ("cclose", "sclose") and op.get("via") == "object":
+                    last_close = op
             script.append(op)
             eng.do_op(op)
             eng.tick()
@@ -867,7 +891,18 @@ def run_case(case, rec):
     return eng
 
 
+def quiet_twisted_log():
+    """failed acknowledgements nobody listens to (Stream.close drops the command's Deferred) would be
+    printed as 'Unhandled error in Deferred' at garbage collection; they are not verdicts"""
+    try:
+        from twisted.logger import globalLogBeginner
+        globalLogBeginner.beginLoggingTo([lambda event: None], redirectStandardIO=False, discardBuffer=True)
+    except Exception:       # noqa
+        pass
+
+
 def run_shard(spec, rec):
+    quiet_twisted_log()
     mode = spec.get("mode", "random")
     if mode == "random":
         for i in range(spec["n"]):
@@ -892,6 +927,7 @@ def run_shard(spec, rec):
 
 
 def replay(case, rec):
+    quiet_twisted_log()
     run_case(case, rec)
 
 
